@@ -104,7 +104,7 @@ fn one_run<K: Kit>(prop: &'static str, tier: &'static str, idx: usize, sc0: &Sce
             oxmpl::verif::clock_reset(1_000_000);
             if pk == Pk::Prm {
                 if ci == 0 {
-                    rig.drv.set_prm_timeout(iters_secs(c.chunk_len * c.chunks));
+                    rig.drv.set_prm_timeout(iters_secs((c.chunk_len * c.chunks).min(160))); // all-pairs linking at a huge radius: keep the callback count under the per-rig cap
                     let _ = rig.drv.construct_roadmap();
                 }
                 rig.drv.solve(LONG)
